@@ -63,6 +63,8 @@ type Result struct {
 	Pooled  bool     `json:"operand_object_reused,omitempty"` // an operand is the tensor OBJECT of an earlier case (equal contents)
 	Edited  bool     `json:"node_edit_probed,omitempty"` // the NodeProto object had been decoded before with other attribute contents
 	Reuse   []string `json:"reuse,omitempty"` // warm-ups after which a re-used operator instance answers differently
+	Layout  string   `json:"out_layout,omitempty"` // a result that is not a plain contiguous tensor: what it is (view, pending transpose, ...)
+	Chain   []string `json:"chain,omitempty"`      // follower operators that answer differently for that result than for an equal contiguous tensor
 }
 
 type MutJ struct {
